@@ -3,7 +3,8 @@ PROP = {
     "coq_targets": ["Properties/C31.vo", "Extract/C31Extract.vo"],
     "properties_file": "Properties/C31.v",
     "theorems": ["C31_up_only_after_threeway", "C31_handshake", "C31_down_on_mismatch", "C31_down_on_timeout",
-                 "C31_eventually_removed", "C31_removed_after_last_hello", "C31_lsp_lists_up", "C31_lsp_lists_exactly_up"],
+                 "C31_eventually_removed", "C31_removed_after_last_hello", "C31_lsp_lists_up", "C31_lsp_lists_exactly_up",
+                 "C31_lsp_lists_exactly_up_change_during_build", "C31_drain_after_build_loses_change"],
     "allowed_axioms": [],
     "harness": "c31",
     "modelrun": {"name": "c31", "extracted": ["c31_model"], "driver": "ocaml/c31/c31_run.ml"},
